@@ -13,6 +13,15 @@ fn tok<T: ToTokens>(t: &T) -> String {
     t.to_token_stream().to_string()
 }
 
+/// Digest of an item's complete token text (bodies included).
+fn item_hash<T: ToTokens>(t: &T) -> String {
+    use std::hash::{Hash, Hasher};
+    #[allow(deprecated)]
+    let mut h = std::hash::SipHasher::new();
+    tok(t).hash(&mut h);
+    format!("{:016x}", h.finish())
+}
+
 /// All `#[derive(..)]` paths of an item.
 fn derives(attrs: &[Attribute]) -> Vec<String> {
     let mut out = Vec::new();
@@ -131,7 +140,7 @@ fn walk(items: &[Item], module: &str, out: &mut Vec<Value>) {
                     "kind": "struct", "mod": module, "name": s.ident.to_string(),
                     "vis": vis_str(&s.vis), "derives": derives(&s.attrs),
                     "serde": serde_opts(&s.attrs), "shape": shape, "fields": fs,
-                    "generics": tok(&s.generics), "doc": doc(&s.attrs),
+                    "generics": tok(&s.generics), "doc": doc(&s.attrs), "h": item_hash(s),
                 }));
             }
             Item::Enum(e) => {
@@ -150,7 +159,7 @@ fn walk(items: &[Item], module: &str, out: &mut Vec<Value>) {
                     "kind": "enum", "mod": module, "name": e.ident.to_string(),
                     "vis": vis_str(&e.vis), "derives": derives(&e.attrs),
                     "serde": serde_opts(&e.attrs), "variants": vs,
-                    "generics": tok(&e.generics), "doc": doc(&e.attrs),
+                    "generics": tok(&e.generics), "doc": doc(&e.attrs), "h": item_hash(e),
                 }));
             }
             Item::Impl(i) => {
@@ -171,13 +180,13 @@ fn walk(items: &[Item], module: &str, out: &mut Vec<Value>) {
                     "trait": i.trait_.as_ref().map(|(_, p, _)| tok(p)),
                     "self_ty": tok(&i.self_ty),
                     "generics": tok(&i.generics),
-                    "fns": fns,
+                    "fns": fns, "h": item_hash(i),
                 }));
             }
             Item::Fn(f) => {
                 out.push(json!({
                     "kind": "fn", "mod": module, "name": f.sig.ident.to_string(),
-                    "vis": vis_str(&f.vis), "sig": tok(&f.sig),
+                    "vis": vis_str(&f.vis), "sig": tok(&f.sig), "h": item_hash(f),
                 }));
             }
             Item::Mod(m) => {
